@@ -80,6 +80,16 @@ CHECKS["C17"] = {
     "technique": "contract-based deductive verification (Verus) of extracted functions + Verus lemmas over mechanically extracted table data; failing table lemma replayed natively on UserRole::match_url_by_roles",
 }
 
+CHECKS["C16"] = {
+    "text": "Proof (Verus, unbounded), gRPC half only: in the real InvokerHandler::handle every registered handler is entered only when authorised — the data handler's "
+            "contract carries `requires auth off || public type || cluster type || session present` and `requires no cluster token configured || not a cluster request || "
+            "cluster token valid`, so Verus proves it at the one real call site; ignore_auth / is_cluster_request equal the public and cluster-internal sets written from the "
+            "property statement; a refused request gets 403/500; fill_token_session attaches a session only with auth on, a non-empty presented token and a cache hit for exactly that token.",
+    "note": "HTTP half NOT decided: ApiCheckAuthMiddleware::call (async closure in a generic actix Service, two regexes, route table in web::scope builders) is outside Verus — "
+            "an HTTP route outside the patterns or an over-broad ignore entry is not detected. A-CACHE assumed. The ClusterToken header comparison passes through a closure that "
+            "is opaque to Verus (only 'flag raised => token configured' is proved). Trait dispatch to the concrete handlers is abstracted by one shim handler.",
+}
+
 NOT_APPLICABLE = {
     "C01": "equation between the states of seven actors across stop/restart; effects travel through Addr::send futures — no function-shaped contract can state it (DESIGN §6)",
     "C04": "crash points between file writes of several actors need a crash-Hoare logic over an external resource; neither Verus nor Kani models intermediate disk states (DESIGN §6)",
@@ -93,5 +103,4 @@ NOT_APPLICABLE = {
     "C09": "not yet built in this revision (planned: U-config*)",
     "C10": "not yet built in this revision (planned: U-configlistener/U-subscriber)",
     "C14": "not yet built in this revision (planned: U-processrange)",
-    "C16": "not yet built in this revision (planned: U-grpcauth)",
 }
